@@ -106,6 +106,17 @@ var c15Tapes = []func(b uint32, i int) uint32{
 	func(b uint32, i int) uint32 { return (b*16 - 1 - uint32(i)) % b },
 }
 
+// c15MakeTape: tapes 0 and 1 are policies; tape 2 is policy 0 with the source
+// failing at the second read.
+func c15MakeTape(k int) *tape.Tape {
+	if k == 2 {
+		t := policyTape(c15Tapes[0])
+		t.FaultAt, t.Fault = 2, tape.Fault{Deliver: 0, Err: errInjected}
+		return t
+	}
+	return policyTape(c15Tapes[k])
+}
+
 type c15Op struct {
 	Name  string
 	Query func(x *c15World) string // returns a rendering of the result; nil for updates
@@ -147,6 +158,8 @@ func c15Ops() []c15Op {
 		{Name: "sf()", Tape: 1, Query: func(x *c15World) string {
 			return safe(func() string { s, e := x.sf(); return fmt.Sprintf("%q %08x", s, math.Float32bits(float32(e))) })
 		}},
+		{Name: "Generate(w) on a source that fails at read 2 (panic recovered)", Tape: 2, Query: func(x *c15World) string { return renderGen(runGen(x.w.Generate)) }},
+		{Name: "Generate(c) on a source that fails at read 2 (panic recovered)", Tape: 2, Query: func(x *c15World) string { return renderGen(runGen(x.c.Generate)) }},
 		{Name: "c.Length 2<->3", Upd: func(x *c15World) { x.c.Length = 5 - x.c.Length }},
 		{Name: "c.Allow ^= Digits", Upd: func(x *c15World) { x.c.Allow ^= spg.Digits }},
 		{Name: "c.ExcludeChars \"\"<->\"a\"", Upd: func(x *c15World) {
@@ -268,14 +281,14 @@ func c15Seq(c *core.Ctx, ops []c15Op, seq []int) bool {
 			continue
 		}
 		before := x.snap()
-		t := policyTape(c15Tapes[op.Tape])
+		t := c15MakeTape(op.Tape)
 		install(t)
 		got := op.Query(x)
 		t.EndCall()
 		after := x.snap()
 		// the same call on freshly built values with the same public fields
 		y := x.fresh()
-		ft := policyTape(c15Tapes[op.Tape])
+		ft := c15MakeTape(op.Tape)
 		install(ft)
 		want := op.Query(y)
 		ft.EndCall()
@@ -324,7 +337,7 @@ func c15CharPool() []ref.CharRecipe {
 	for _, rq := range [][]string{{"ab", "c"}, {"a", "bc"}, {"abc"}, {"a", "b", "c"}, {"c", "ab"}} {
 		add(ref.CharRecipe{AllowChars: "abcd", RequireSets: rq})
 	}
-	for _, sep := range []string{",", " ", "|", ";", "\x00", "/"} {
+	for _, sep := range []string{",", " ", "|", ";", "\x00", "/", "\"", "] [", "\n"} {
 		add(ref.CharRecipe{AllowChars: "z", RequireSets: []string{"x" + sep + "y"}})
 		add(ref.CharRecipe{AllowChars: "z", RequireSets: []string{"x", sep + "y"}})
 	}
@@ -401,7 +414,10 @@ func checkCharAgainstModel(r ref.CharRecipe) string {
 	return ""
 }
 
-func c15Pairs(c *core.Ctx) {
+// charPairs: every ordered pair (A, B) of the confusable character recipes;
+// A's queries run first, then B is checked against the model. Shared by the
+// checks of the properties B's answers belong to (C02/C03/C07/C13/C15).
+func charPairs(c *core.Ctx) bool {
 	pool := c15CharPool()
 	for i, a := range pool {
 		for j, b := range pool {
@@ -413,10 +429,17 @@ func c15Pairs(c *core.Ctx) {
 			c.Count("pairs_checked", 1)
 			if msg := checkCharAgainstModel(b); msg != "" {
 				c.Violation("pair char", fmt.Sprintf("after the queries on recipe %s, recipe %s answers wrongly: %s", mustJSON(recipeLit(a)), mustJSON(recipeLit(b)), msg),
-					map[string]interface{}{"first": recipeLit(a), "second": recipeLit(b)})
-				return
+					map[string]interface{}{"first": recipeLit(a), "second": recipeLit(b), "pair": true})
+				return false
 			}
 		}
+	}
+	return true
+}
+
+func c15Pairs(c *core.Ctx) {
+	if !charPairs(c) {
+		return
 	}
 	// wordlist recipes sharing one *WordList (and, for a second list of the
 	// same size, nothing but the size)
@@ -535,7 +558,7 @@ func init() {
 		ID:    "C15",
 		Level: "model_checking",
 		Build: "inst",
-		Rule: "every sequence of length <=4 (thorough <=5) over 18 operations - 9 queries (Generate/Entropy/Alphabet/SuccessProbability on a character recipe, Generate/Entropy on a wordlist recipe, the preset SFDigits1 and a constructed separator function, each with a fixed scripted random stream) and 9 caller-side updates (lengths, class flags, exclude string, in-place edit of the RequireSets slice, nil/slice, capitalisation, separator function and character) - run on live values; after every query: caller-visible state deep-equal to the snapshot before it, result and bytes consumed equal to the same call on freshly built values with the same public fields, and consistent with the reference model evaluated on the current fields; " +
+		Rule: "every sequence of length <=4 (thorough <=5) over 20 operations - 11 queries (two of them on a random source that fails mid-call, the panic recovered by the caller) (Generate/Entropy/Alphabet/SuccessProbability on a character recipe, Generate/Entropy on a wordlist recipe, the preset SFDigits1 and a constructed separator function, each with a fixed scripted random stream) and 9 caller-side updates (lengths, class flags, exclude string, in-place edit of the RequireSets slice, nil/slice, capitalisation, separator function and character) - run on live values; after every query: caller-visible state deep-equal to the snapshot before it, result and bytes consumed equal to the same call on freshly built values with the same public fields, and consistent with the reference model evaluated on the current fields; " +
 			"part B: all ordered pairs of ~70 character recipes and 96 wordlist recipes that differ only in how the same characters are split over fields/strings or that share a word list object (queries on A, then B checked against the model); states = sequences; non-trivial = distinct (query, result) pairs",
 		Assume:    []string{"map ranges take the canonical order in the instrumented build, so a freshly built word list has the same word order", "no state deduplication: closures hide state that cannot be hashed soundly"},
 		Run:       c15Run,
